@@ -791,7 +791,7 @@ def s_reproject(draw):
     else:
         a, b = draw(st.sampled_from(PAIRS))
         pa = pb = _pt_in(draw, _isect(CRS_POOL[a][1], CRS_POOL[b][1]))
-        how_kind = draw(st.sampled_from(["geobox", "geobox", "crs", "crs", "utm"]))
+        how_kind = draw(st.sampled_from(["geobox", "geobox", "crs", "crs", "utm"] + (["geobox"] * 3 if a == b else [])))
     src = draw(s_grid(a, pa, unit_ok=False))
     dask = draw(st.sampled_from([False, False, True]))
     # dask reprojection of a GCP source is explicitly unsupported (assert isinstance(s_gbox, GeoBox) in _dask.py)
@@ -799,6 +799,18 @@ def s_reproject(draw):
     case: Dict[str, Any] = {"src": src, "how": how_kind}
     if how_kind == "geobox":
         case["dst"] = draw(s_grid(b, pb, unit_ok=True))
+        if a == b and not disjoint and draw(st.integers(0, 3)) != 0:
+            # the source grid itself moved by a few pixels or a fraction of one, same shape (or one side changed): every
+            # label of the result has to come from the destination, however close it is to a source label (round 8, C09-21)
+            if draw(st.integers(0, 3)) != 0:
+                src["rot"] = "none"  # labelled axes on both sides: the case where a source label could be mistaken for a destination one
+            d = {k: (list(v) if isinstance(v, list) else v) for k, v in src.items() if k != "gcp"}
+            sh = st.sampled_from([0.0, 0.0, 1.0, -1.0, 2.0, 0.5, 0.25, -0.125, 3.0])
+            d["shift"] = [draw(sh), draw(sh)]
+            d["shape0"] = list(src["shape"])
+            if draw(st.integers(0, 2)) == 0:
+                d["shape"][draw(st.integers(0, 1))] += draw(st.sampled_from([1, 3]))
+            case["dst"] = d
     elif how_kind == "crs":
         spell = "proj" if b == "sinu" else draw(st.sampled_from(HOW_SPELL))
         case["dst"] = {"label": b, "spell": spell}
@@ -853,6 +865,12 @@ def mk_grid(gc: dict):
     a, b, d, e = R[0] * sx, R[1] * sy, R[2] * sx, R[3] * sy
     c_ = xc - (a * nx + b * ny) / 2
     f_ = yc - (d * nx + e * ny) / 2
+    if gc.get("shift"):
+        # anchored where the unshifted, unresized grid would start: a pure pixel translation of that grid
+        ny0, nx0 = gc.get("shape0", gc["shape"])
+        tx, ty = (Fr(v) for v in gc["shift"])
+        c_ = xc - (a * nx0 + b * ny0) / 2 + a * tx + b * ty
+        f_ = yc - (d * nx0 + e * ny0) / 2 + d * tx + e * ty
     co = [float(v) for v in (a, b, c_, d, e, f_)]
     exact = exact and all(Fr(v) == w for v, w in zip(co, (a, b, c_, d, e, f_)))
     tag = {"label": label, "spell": "proj" if label == "sinu" else "int"}
@@ -929,6 +947,8 @@ def _check_grid_mapping(da_, want_crs, what: str):
 
 
 def o_reproject(case, T):
+    if isinstance(case.get("dst"), dict) and case["dst"].get("shift"):
+        T.cls("dst:shifted_source_grid")
     import xarray as xr
     from odc.geo.geobox import GeoBox
     from odc.geo.xr import wrap_xr, xr_reproject
